@@ -535,6 +535,13 @@ class Structure:
         self.split_in_out(self.in_list, self.out_list)
         st.split_in_out(st.in_list, st.out_list)
 
+        # the returned function belongs to the result of THIS solve: it must not read state that
+        # later solves overwrite
+        main_proc, mon_proc = self.Sproc, st.Sproc
+        main_in_list, mon_out_list = list(self.in_list), list(st.out_list)
+        main_in_pins, mon_out_pins = dict(self.in_pins), dict(st.out_pins)
+        pin_mapping = dict(pin_mapping)
+
         def solve_inter(dic: Dict[Pin, complex]) -> Tuple[np.ndarray]:
             """This function calculates the couefficient of the internal modes
 
@@ -545,18 +552,18 @@ class Structure:
                 numpy array: array of the coefficient of the input modes
                 numpy array: array of the coefficient of the output modes
             """
-            u = np.zeros(len(self.in_list), dtype=complex)
-            d = np.zeros(len(st.out_list), dtype=complex)
+            u = np.zeros(len(main_in_list), dtype=complex)
+            d = np.zeros(len(mon_out_list), dtype=complex)
             for name, value in dic.items():
                 mapped = pin_mapping[name]
-                if mapped in self.in_list:
-                    u[self.in_pins[mapped]] = value
-                if mapped in st.out_list:
-                    d[st.out_pins[mapped]] = value
-            uo, do = self.Sproc.int_complete(st.Sproc, u, d)
+                if mapped in main_in_list:
+                    u[main_in_pins[mapped]] = value
+                if mapped in mon_out_list:
+                    d[mon_out_pins[mapped]] = value
+            uo, do = main_proc.int_complete(mon_proc, u, d)
             return uo, do
 
-        return solve_inter, st.in_pins
+        return solve_inter, dict(st.in_pins)
 
     def get_model(
         self,
